@@ -26,6 +26,8 @@ def enumerate_specs(tier):
             ci = len(specs)
             if ci % 4 == 0 and len(od.inputs(args)[0].shape) >= 2:     # first operand as a non-contiguous view
                 specs.append({"op": name, "args": args, "variant": {"req": [1] * n, "layout": "T" if ci % 8 == 0 else "S"}})
+            if od.smooth_at_zero(args):              # an operand entry that is exactly 0
+                specs.append({"op": name, "args": args, "variant": {"req": [1] * n, "zero_first": True}})
             if tier != "quick" or ci % 3 == 0:      # the same graph differentiated twice
                 specs.append({"op": name, "args": args, "variant": {"req": [1] * n, "twice": True}})
     return specs
